@@ -350,6 +350,26 @@ def body(prop, args, seed, t0):
                 tie_broken("translated_check_t13", bad13, "translator disagreement (Wavefunction class)")
         # --- T13 end
 
+        # --- T19: the translated TEXT forms of Pauli operators (harness/tables_t19.py: `PauliTerm.__repr__` / `PauliSum.__repr__`, the string
+        # branches of the two constructors; C11) and the translated equality / hashing of Pauli operators (harness/tables_t19e.py; C03) are
+        # run in the driver (tags "TRT19" / "TRT19E") and compared with the REAL methods on real objects (harness/translated_check_t19.py)
+        from harness import translated_check_t19 as _t19
+        if prop in _t19.props() and driver.available() and (build_ok or common.lake_build(["oqdriver"])[0]):
+            bad1 = []
+            if "prelude_vs_cpython" not in tie:
+                from harness import prelude_check as _pc
+                tie["prelude_vs_cpython"], bad1 = _pc.run(seed)
+            n19, bad19, untr19, listed19 = _t19.run(seed, only=prop)
+            tie["translated_t19_vs_real_methods"] = n19
+            tie["translated_t19_not_compared"] = len(_t19.DROPPED)
+            tie["translated_functions"] = list(tie.get("translated_functions", [])) + listed19
+            tie["untranslatable_now"] = list(tie.get("untranslatable_now", [])) + untr19
+            if bad1:
+                return prelude_broken(bad1)
+            if bad19:
+                tie_broken("translated_check_t19", bad19, "translator disagreement (text forms / equality of Pauli operators)")
+        # --- T19 end
+
     except Timeout:
         raise
     except Exception as e:  # noqa: BLE001
